@@ -1,12 +1,67 @@
 import HcipyVerif.Model.Proto
+import HcipyVerif.Model.NearField
 
-/-! Line-protocol front end of the C04 model (stub: not built yet). -/
+/-! Line-protocol front end of the C04 model (near-field propagator bookkeeping).
+
+```
+C04 setup fresnel|angular nx ny dx dy lam z n q s
+   -> ok M=[mx,my] cut=y0:y1:x0:x1|none branch=ir|tf slack=… regime=0|1 noevan=0|1 minrad=… nudelta=[…] nuzero=[…]
+C04 tf ix iy      -> ok turns=[…]   (fresnel: sub-sample phases in turns mod 1)
+                   | ok rad=[…] evz=… evzold=…   (angular: sub-sample radicands (n/λ)² - ν²; decay distance of
+                                                   evanescent components, repaired and unrepaired code)
+C04 ir jy         -> ok amp=… turns=[…] (fresnel) | ok r2=[…] (angular): impulse response on row jy of the
+                      enlarged grid, for jx = 0..Mx-1 and all s² dithers (x dither fastest)
+```
+-/
 namespace HcipyVerif.Driver.C04
+open HcipyVerif.Proto HcipyVerif.NearField
 
 structure St where
-  dummy : Unit := ()
+  p : Option Params := none
+
+def parseKind? : String → Option Kind
+  | "fresnel" => some .fresnel
+  | "angular" => some .angular
+  | _ => none
+
+def showCut : Option (Nat × Nat × Nat × Nat) → String
+  | none => "none"
+  | some (a, b, c, d) => s!"{a}:{b}:{c}:{d}"
 
 def step (st : St) : List String → St × String
+  | ["reset"] => ({}, "ok")
+  | ["setup", kind, nx, ny, dx, dy, lam, z, n, q, s] =>
+    match parseKind? kind, parseNat? nx, parseNat? ny, parseRat? dx, parseRat? dy, parseRat? lam,
+          parseRat? z, parseRat? n, parseRat? q, parseNat? s with
+    | some kind, some nx, some ny, some dx, some dy, some lam, some z, some n, some q, some s =>
+      if nx = 0 || ny = 0 || dx ≤ 0 || dy ≤ 0 || lam ≤ 0 || n ≤ 0 || q < 1 || s = 0 then (st, "err value") else
+      let p : Params := { kind := kind, nx := nx, ny := ny, dx := dx, dy := dy, lam := lam, z := z, n := n, q := q, s := s }
+      let nd := [nuDelta p.dx (mx p), nuDelta p.dy (my p)]
+      let nz := [nu p.dx (mx p) 0 0, nu p.dy (my p) 0 0]
+      ({ p := some p },
+        s!"ok M={showNatList [mx p, my p]} cut={showCut (cutout p)} branch={if impulseBranch p then "ir" else "tf"} " ++
+        s!"slack={showRat (branchSlack p)} regime={showBool (statedRegime p)} noevan={showBool (noEvanescent p)} " ++
+        s!"minrad={showRat (minRadicand p)} nudelta={showRatList nd} nuzero={showRatList nz}")
+    | _, _, _, _, _, _, _, _, _, _ => (st, "bad-op")
+  | ["tf", ix, iy] =>
+    match st.p, parseNat? ix, parseNat? iy with
+    | some p, some ix, some iy =>
+      if ix ≥ mx p || iy ≥ my p then (st, "err index") else
+      match p.kind with
+      | .fresnel => (st, s!"ok turns={showRatList (fresnelSubTurns p ix iy)}")
+      | .angular => (st, s!"ok rad={showRatList (angularSubRadicands p ix iy)} evz={showRat (evanescentZ p)} evzold={showRat (evanescentZOld p)}")
+    | none, some _, some _ => (st, "err value")
+    | _, _, _ => (st, "bad-op")
+  | ["ir", jy] =>
+    match st.p, parseNat? jy with
+    | some p, some jy =>
+      if jy ≥ my p then (st, "err index") else
+      if p.z = 0 then (st, "err value") else
+      match p.kind with
+      | .fresnel => (st, s!"ok amp={showRat (fresnelIrAmp p)} turns={showRatList (fresnelIrRow p jy)}")
+      | .angular => (st, s!"ok r2={showRatList (angularIrRow p jy)}")
+    | none, some _ => (st, "err value")
+    | _, _ => (st, "bad-op")
   | _ => (st, "bad-op")
 
 end HcipyVerif.Driver.C04
